@@ -270,6 +270,15 @@ def dispersive_leaf(ctx, lentil, rng):
         xs, ys = rng.uniform(-1e-3, 1e-3), rng.uniform(-1e-3, 1e-3)
         x, y = el.shift(wavelength=lam, xs=xs, ys=ys)
         x, y = float(np.squeeze(x)), float(np.squeeze(y))
+        # the same element evaluated again (same wavelength, same and other incoming displacement) must agree with itself
+        xa, ya = el.shift(wavelength=lam, xs=xs, ys=ys)
+        xb, yb = el.shift(wavelength=lam, xs=0.0, ys=0.0)
+        if abs(float(np.squeeze(xa)) - x) > 1e-12 or abs(float(np.squeeze(ya)) - y) > 1e-12 or \
+                abs(float(np.squeeze(xb)) + xs - x) > 1e-9 * (1 + abs(x)) or abs(float(np.squeeze(yb)) + ys - y) > 1e-9 * (1 + abs(y)):
+            ctx.violation({'kind': 'dispersive-leaf', 'trace_order': to, 'dispersion_order': do, 'clause': 'depends-on-earlier-evaluation'},
+                          {'first': [x, y], 'again': [float(np.squeeze(xa)), float(np.squeeze(ya))], 'without_incoming': [float(np.squeeze(xb)), float(np.squeeze(yb))],
+                           'incoming': [xs, ys]}, case=None)
+            continue
         x0, y0 = x - xs, y - ys
         n += 1
         sig = {'kind': 'dispersive-leaf', 'trace_order': to, 'dispersion_order': do}
